@@ -34,6 +34,16 @@ CLAIMS = {
              "builds are additionally compared with each other in lock-step.",
         technique="Lean 4 simulation proof between two interpreters + two real builds in lock-step",
         design="7 C02"),
+    'C05': dict(
+        text="Proof for the explicit-header path, correspondence for the rest. Theorems Sx.C05_rx_done / C05_crc_error (plain execution) and "
+             "C05_cached (cached build after any admissible history): whenever RegIrqFlags holds RxDone without CadDone and PayloadCrcError "
+             "(any other flags), for every RxNbBytes 0..255, every FifoRxCurrentAddr (wrap-around at 256 proved by induction on the burst), "
+             "every buffer content, FIFO pointer and other handle fields, one handler invocation invokes exactly one callback, the receive "
+             "callback with exactly the chip's bytes and length, acknowledges exactly the flags read and resets the per-packet state "
+             "(so the outcome does not depend on the packets before); a packet with PayloadCrcError yields no callback. The implicit-header "
+             "path and flag combinations with CadDone are covered by the trace correspondence and the delivery monitor only.",
+        technique="Lean 4 weakest-precondition proof of the LoRa handler + induction on the FIFO burst + scheduler scripts",
+        design="7 C05"),
     'C13': dict(
         text="Proof. Theorems Sx.C13_set_bandwidth, C13_set_spreading_factor, C13_override and their liftings to the cached build after any "
              "history (C13_bandwidth_cached, C13_spreading_factor_cached, via the bridge step_cached_of_wp = C02 + C01): for each of the ten "
@@ -44,6 +54,15 @@ CLAIMS = {
              "The monitor re-evaluates the rule on the real driver's trace for all 70 combinations in both call orders.",
         technique="Lean 4 weakest-precondition proof over the model + kernel-decided byte facts + exhaustive combination scripts",
         design="7 C13"),
+    'C17': dict(
+        text="Proof. Theorems Sx.create_is_one_read (the program of sx127x_create is exactly one single-register read of RegVersion: no other "
+             "request exists), C17_create (cached build, any old state, any environment events around the transfer, any fault: exactly one "
+             "transfer on the bus, success iff the read succeeded and returned 0x12, and the chip afterwards is what the environment alone "
+             "left — no register, FIFO content or pointer changed by the driver), C17_version_check (all 256 values) and C17_resume (a LoRa "
+             "explicit-header packet pending while the handle is discarded and re-created is delivered with the same bytes and length as on "
+             "the old handle, for any cached content, configuration, length and buffer position).",
+        technique="Lean 4 program-shape theorem + symbolic execution with faults and schedules + resume equivalence via C05",
+        design="7 C17"),
     'C19': dict(
         text="Proof for the driver side, correspondence-only for the backends. Theorem Sx.C19_driver_requests_valid: for either build, any history "
              "(valid arguments, any chip, any schedule, any failing transfers) every transfer put on the bus carries 1..4 bytes (register calls) "
